@@ -726,7 +726,7 @@ func TestC19(t *testing.T) {
 		"FlushPath(/) whose DAG is read back with the UnixFS readers; non-trivial = at least 6 operations, at least one successful mv " +
 		"and at least 3 successful structural operations; distinct by (config, ops)")
 	cs := vh.NewCases(e, "From V Require Import model.M_C19.\nOpen Scope Z_scope.", "case", "check_case", 100)
-	n := e.Pick(1200, 24000)
+	n := e.Pick(700, 20000)
 	corp := corpus()
 	total := 0
 	for i := 0; i < n; i++ {
